@@ -39,7 +39,7 @@ Methods ==
     [name |-> "DeleteThing", cs |-> FALSE, ss |-> FALSE, void |-> TRUE,  dep |-> FALSE, flat |-> <<"name">>, auto |-> {}],
     [name |-> "UpdateThing", cs |-> FALSE, ss |-> FALSE, void |-> FALSE, dep |-> FALSE,
        flat |-> <<"inner.name", "tags", "labels", "kind", "class", "flag", "opt_request_id">>, auto |-> {}],
-    [name |-> "CreateThing", cs |-> FALSE, ss |-> FALSE, void |-> FALSE, dep |-> FALSE, flat |-> <<"name">>,
+    [name |-> "CreateThing", cs |-> FALSE, ss |-> FALSE, void |-> FALSE, dep |-> FALSE, flat |-> <<"name", "request_id">>,   \* an auto-populated field may also be flattened
        auto |-> {"request_id", "opt_request_id"}],
     \* overlapping signatures (the second omits a field of the first), and a repeated google.protobuf.Value field
     [name |-> "TouchThing",  cs |-> FALSE, ss |-> FALSE, void |-> FALSE, dep |-> FALSE,
